@@ -1183,13 +1183,13 @@ func (g *c03Gen) nestedSubnets() {
 			g.doneH[c03Sid{9, i, 0}] = true
 		}
 	}
-	a := open(na, 2+rd.Intn(4))
-	b := open(nb, 1+rd.Intn(3))
+	a := open(na, 2+rd.Intn(3))
+	b := open(nb, 1+rd.Intn(2))
 	closeAll(a)
-	b = append(b, open(nb, 2+rd.Intn(3))...)
+	b = append(b, open(nb, 1+rd.Intn(3))...)
+	closeAll(b)
 	if rd.Chance(1, 2) {
-		closeAll(b)
-		closeAll(open(nb, 2+rd.Intn(3)))
+		closeAll(open(nb, 1+rd.Intn(2)))
 	}
 	r.out.Cover("directed.nested_subnets")
 }
@@ -1198,10 +1198,10 @@ func (g *c03Gen) nestedSubnets() {
 // connections again (a refusal is judged by the monitor: only at a cap)
 func (g *c03Gen) probeLimiter() {
 	rd, r := g.rd, g.r
-	for k := 0; k < 3; k++ {
+	for k := 0; k < 2; k++ {
 		v6, n := rd.Bool(), rd.Intn(4)
 		var got []int
-		for j := 0; j < 3; j++ {
+		for j := 0; j < 2; j++ {
 			i := g.nextConn
 			g.nextConn++
 			if r.do(c03Op{code: 1, i: i, inb: true, fd: false, ep: c03PlanEp(v6, n, 1+rd.Intn(3))}) == 0 {
@@ -1382,7 +1382,9 @@ func (g *c03Gen) drain() {
 	if g.pf.gc {
 		r.do(c03Op{code: 10})
 	}
-	g.probeLimiter()
+	if g.rd.Chance(1, 2) {
+		g.probeLimiter()
+	}
 }
 
 func c03Profiles(rd *verifh.Rand) c03Profile {
@@ -1891,7 +1893,7 @@ func TestVerifC03(t *testing.T) {
 	defer out.Close()
 	rd := verifh.NewRand(verifh.Seed())
 	c03Corpus(t, out)
-	ncases, nconc := 1500, 20
+	ncases, nconc := 1000, 16
 	if verifh.Tier() == "thorough" {
 		ncases, nconc = 60000, 300
 	}
